@@ -32,7 +32,7 @@ ASSUMPTIONS = [
     "the %.18e text round trip of numpy.savetxt/loadtxt is exact for float64 (trusted)",
 ]
 QUICK_METRICS = ["log_squared_euclidean", "euclidean", "manhattan", "canberra", "kullback_leibler",
-                 "jaccard", "pearson", "chord"]
+                 "jaccard", "pearson", "chord", "gaussian"]     # gaussian: d(x, x) = 1, not 0
 FIXED = [
     [[0.0, 0.0], [1.0, 0.0], [0.0, 2.0], [3.0, 3.0], [1.0, 0.0]],
     [[0.0, 1.0], [2.0, 2.0], [5.0, 1.0], [5.0, 4.0], [0.5, 0.25]],
@@ -70,7 +70,7 @@ def plan(tier, seed):
                 shards.append(("fixed-dtype", 0, mt, fmt, dt))
     # the dataset handed over in Fortran order / as a transposed view
     for mt in ("euclidean", "canberra"):
-        for lay in ("F", "T"):
+        for lay in ("F", "T", "R", "N"):
             for fmt in ("txt", "csv"):
                 shards.append(("fixed-layout", 0, mt, fmt, lay))
     return shards
@@ -129,6 +129,10 @@ def as_data(prog_or_X, dt, lay=None):
         X = np.asfortranarray(X)
     elif lay == "T":
         X = np.ascontiguousarray(X.T).T
+    elif lay == "R":
+        X.flags.writeable = False
+    elif lay == "N":
+        X = np.ascontiguousarray(X[::-1, ::-1])[::-1, ::-1]
     return X
 
 
@@ -151,6 +155,20 @@ def model_programs(X, Y, metric, fmt):
             p = dict(base)
             p.update(model="SupervisedOPF", train=train, test=test)
             yield p
+            if train == sorted(train):
+                # index sets need not be disjoint or duplicate-free: a test row that is also a
+                # training row, and a training row listed twice (the diagonal of the file is read)
+                p = dict(base)
+                p.update(model="SupervisedOPF", train=train, test=test + [train[0], train[-1]])
+                yield p
+                p = dict(base)
+                p.update(model="SupervisedOPF", train=train + [train[0]], test=test)
+                yield p
+                if len(train) >= 3:
+                    p = dict(base)
+                    p.update(model="UnsupervisedOPF", train=train + [train[1]], test=test + [train[0]],
+                             min_k=1, max_k=2)
+                    yield p
         for mx in (1, 2):
             if mx <= len(train) - 1:
                 for mn in range(1, mx + 1):
